@@ -5,9 +5,9 @@ from vcheck import write_json, InfraError
 META = {
     "property_id": "C35",
     "level": "model_checking",
-    "technique": "TLA+ transcription of the EIP formulas (FeeMath.tla); TLC checks the bound lemmas on input grids, enumerates cases replayed on the Go functions, and validates recorded calls of the real functions (FeeMathTrace.tla)",
+    "technique": "TLA+ transcription of the EIP formulas (FeeMath.tla, and over arbitrary-size naturals FeeMathBig.tla/BigNat.tla); TLC checks the bound lemmas on input grids, enumerates cases replayed on the Go functions, and validates recorded calls of the real functions (FeeMathTrace.tla, FeeMathBigTrace.tla)",
     "text": "FeeMath.tla transcribes EIP-1559 (base fee, gas-limit bound), EIP-4844/7691/7892/7918 (excess blob gas, fake_exponential, blob fee, schedule selection) and the intrinsic-gas / calldata-floor terms (EIP-2, 2028, 2930, 3860, 7702, 7623; Amsterdam drafts 2780/7976/7981/8037) from the EIP texts. TLC (1) checks the bounds the property names (base fee moves by at most 1/8 and at least 1 upwards, never negative, monotone; admissible gas limits form the open interval p +- p/1024 above 5000; fake_exponential monotone and >= 1; EIP-7918 never lowers the excess; floor/intrinsic monotonicity) on dense small and sparse realistic grids, (2) enumerates a grid of cases with the demanded value, each executed on eip1559.CalcBaseFee/VerifyEIP1559Header, misc.VerifyGaslimit, eip4844.CalcBlobFee/CalcExcessBlobGas, core.IntrinsicGas/FloorDataGas, (3) is the oracle for seeded random and boundary calls of those functions (plus VerifyEIP4844Header) recorded as a trace. A panic of a Go function aborts the driver and is reported as a violation.",
-    "note": "Exact value comparison only inside the domain where every intermediate product is < 2^31 (TLC integers): e.g. gas limits up to 2*10^8 with base fees up to 2^31/|gasUsed-target|, blob update fractions up to ~3000 with exponents up to ~8, and the mainnet update fractions only with excess < 643 (fee 1). Amsterdam intrinsic terms are transcribed from draft EIPs as published in the tree's params comments. Trusts TLC and the argument construction in harness/cmd/c35.",
+    "note": "The bound lemmas and the enumerated grid live in the domain where every intermediate product is < 2^31 (TLC integers). Mainnet magnitudes (gas limits to 2^63-1, base fees to 2^256, blob-fee exponents to 60 on params.MainnetChainConfig) are validated exactly through a second transcription over base-10^4 digit sequences (BigNat.tla) which TLC proves equal to the native one on the grid; intrinsic gas is only exercised with calldata up to 200 kB. Amsterdam intrinsic terms are transcribed from draft EIPs as published in the tree's params comments. Trusts TLC and the argument construction in harness/cmd/c35.",
     "design_ref": "3.1 C35",
 }
 
@@ -18,25 +18,33 @@ def run(ctx):
     drv = ctx.build("c35")
     # MC + R: lemmas on the grid; the same run prints every case with the demanded value
     if ctx.thorough:
-        ctx.model_check("codec/MCFeeMath", "codec/MCFeeMath", timeout=1500, name="MCFeeMath(realistic grid)")
-        ctx.model_check("codec/MCFeeMath", "codec/MCFeeMathSmall", timeout=1800, name="MCFeeMath(dense small grid)")
-        res = ctx.model_check("codec/MCFeeMath", "codec/MCFeeMathCases", tags=("CASE",), timeout=900, name="MCFeeMath(cases)")
+        ctx.model_check("codec/MCFeeMath", "codec/MCFeeMath", timeout=7200, workers=4, name="MCFeeMath(realistic grid)")
+        ctx.model_check("codec/MCFeeMath", "codec/MCFeeMathSmall", timeout=7200, workers=4, name="MCFeeMath(dense small grid)")
+        res = ctx.model_check("codec/MCFeeMath", "codec/MCFeeMathCases", tags=("CASE",), timeout=7200, workers=4, name="MCFeeMath(cases)")
     else:
-        res = ctx.model_check("codec/MCFeeMath", "codec/MCFeeMathQuick", tags=("CASE",), timeout=400, name="MCFeeMath(quick grid + cases)")
+        res = ctx.model_check("codec/MCFeeMath", "codec/MCFeeMathQuick", tags=("CASE",), timeout=3600, workers=4, name="MCFeeMath(quick grid + cases)")
+    # MC: the BigNat transcription (used for mainnet magnitudes) agrees with the native one; BigNat laws
+    ctx.model_check("codec/MCFeeMathBig", "codec/MCFeeMathBig", timeout=7200, workers=4, name="MCFeeMathBig(agreement + arithmetic laws)")
     cases = res.lines.get("CASE", [])
     if len(cases) < 1000:
         raise InfraError("TLC emitted only %d cases" % len(cases))
     cp = os.path.join(ctx.scratch, "cases.json")
     write_json(cp, cases)
-    ctx.drive(drv, ["-mode", "cases", "-in", cp], name="c35-cases")
+    ctx.drive(drv, ["-mode", "cases", "-in", cp], timeout=3600, name="c35-cases")
     # V: recorded calls of the real functions validated by the trace specification
     tp = os.path.join(ctx.scratch, "trace.ndjson")
-    s, _ = ctx.drive(drv, ["-mode", "record", "-trace", tp, "-n", ctx.pick(250, 6000)], name="c35-record")
-    ok, consumed, total, r = ctx.validate("codec/FeeMathTrace", tp, ntraces=1, timeout=ctx.pick(400, 1800))
+    s, _ = ctx.drive(drv, ["-mode", "record", "-trace", tp, "-n", ctx.pick(250, 6000)], timeout=3600, name="c35-record")
+    ok, consumed, total, r = ctx.validate("codec/FeeMathTrace", tp, ntraces=1, timeout=7200)
     if not ok:
         ctx.reject_trace("codec/FeeMathTrace", tp, consumed, r)
+    # V at mainnet magnitudes: numbers as base-10^4 digit strings, formulas over BigNat
+    bp = os.path.join(ctx.scratch, "trace-big.ndjson")
+    ctx.drive(drv, ["-mode", "recordbig", "-trace", bp, "-n", ctx.pick(80, 2500), "-nblob", ctx.pick(12, 250)], timeout=3600, name="c35-recordbig")
+    ok, consumed, total, r = ctx.validate("codec/FeeMathBigTrace", bp, ntraces=1, timeout=7200)
+    if not ok:
+        ctx.reject_trace("codec/FeeMathBigTrace", bp, consumed, r)
     return ctx.finish(
         rule="MC: lemmas on every grid case; R: every grid case executed on the Go functions; V: one event per real call, result must equal the TLA+ operator",
-        assumptions=["exact comparison restricted to inputs whose intermediate products are < 2^31 (TLC integers)",
+        assumptions=["lemmas/grid restricted to inputs whose intermediate products are < 2^31; larger inputs validated through BigNat arithmetic (checked against native arithmetic on the grid)",
                      "parent headers are valid (gas limit >= 5000, blob schedule with max >= 1 and target <= max)",
                      "Amsterdam (EIP-2780/7976/7981/8037) terms are drafts"])
